@@ -596,7 +596,12 @@ redo:
 		if idx >= m.CaptureLength()-1 {
 			panic(newError(_UNKNOWN, "invalid capture index"))
 		}
-		capture := src[m.Capture(idx):m.Capture(idx+1)]
+		start, end := m.Capture(idx), m.Capture(idx+1)
+		if m.IsPosCapture(idx) || start > end || end > len(src) {
+			// a position capture has no text, and a capture that is still open has no end yet
+			panic(newError(_UNKNOWN, "invalid capture index"))
+		}
+		capture := src[start:end]
 		for i := 0; i < len(capture); i++ {
 			if i+sp >= len(src) || capture[i] != src[i+sp] {
 				return false, sp, m
